@@ -156,6 +156,7 @@ type TxRecord struct {
 	From     string
 	Meta     module.MsgMetadata
 	MetaPtr  *module.MsgMetadata `json:"-"`
+	AuthUser string // Conn.AuthUser at Start
 	Plan     *StagePlan
 	Started  bool
 	StartRes Outcome
@@ -239,6 +240,9 @@ func (t *ScriptedTarget) violate(s *simrt.Sim, rule, format string, a ...interfa
 func (t *ScriptedTarget) Start(ctx context.Context, msgMeta *module.MsgMetadata, mailFrom string) (module.Delivery, error) {
 	s := t.point("Start")
 	tx := &TxRecord{MsgID: msgMeta.ID, From: mailFrom, Meta: *msgMeta, MetaPtr: msgMeta, RcptRes: map[string]Outcome{}, Statuses: map[string]Outcome{}, Partial: t.Partial}
+	if msgMeta.Conn != nil {
+		tx.AuthUser = msgMeta.Conn.AuthUser
+	}
 	if s != nil {
 		tx.At = s.Now().String()
 		tx.AtD = s.Now()
